@@ -1,7 +1,7 @@
 """Source of MANIFEST.json (bin/mkmanifest renders it). One entry per claimed property."""
 
 HOOK_COMMITS = ["f529e9d", "ae52c2c"]
-FIX_COMMITS = ["c71e8ce"]
+FIX_COMMITS = ["c71e8ce", "b266a7b", "3c8b2f5"]
 
 CHECKS = {
     "C19": dict(
@@ -50,6 +50,30 @@ CHECKS = {
              "representation and tiling; seeded random histories at minute resolution are judged event by event by the laws in Trace_Schedule.",
         note="Trusted: TLC's evaluation of Schedule.tla; the cfg(ohrs_verif) accessor verif_ranges; ranges within 00:00-24:00.",
         design_ref="8/C14",
+    ),
+    "C01": dict(
+        category="model_checking",
+        technique="TLA+ spec Calendar/Selectors/TimeSel/Schedule/DayEval.tla (selector semantics + rule fold M1); TLC cross-checks the fold against a declarative reading on all rule sequences up to the bound, and recomputes every recorded day schedule of the real code from the logged AST (trace validation)",
+        text="Model level: MC_Calendar (civil date / ISO week / Easter arithmetic, anchors from the repo's tests, 400-year period), MC_DayEval: "
+             "the implementation-shaped fold equals the declarative reading of the property text on every sequence of <=2 (quick) / <=3 "
+             "(thorough, 10^6) abstract rules (3 operators x 3 kinds x today/yesterday patterns x wrapping spans); a wrong reading yields a "
+             "counterexample. Binding: the repo's 200 sample lines, every parsable string literal of its tests and seeded structured random "
+             "expressions over the whole grammar are evaluated by the real schedule_at on critical and random days 1900..9999 with "
+             "explicit holiday calendars and date-dependent sun events; Trace_DayEval recomputes each day from the AST the library "
+             "evaluated and compares the tilings wherever the semantics are pinned (Det); skipped days are counted in evidence.",
+        note="Trusted: TLC's evaluation of the specs; the spec's reading of the semantics (DESIGN.md appendix A, corners in 6.1 skipped); astjson.rs.",
+        design_ref="8/C01",
+    ),
+    "C17": dict(
+        category="model_checking",
+        technique="TLA+ spec Schedule/DayEval.tla with comment provenance; TLC checks the comment clauses in MC_Schedule and validates the comments of every recorded day tiling of the real code (trace validation)",
+        text="MC_Schedule shows inductively that addition and iteration never invent comments. Trace_DayEval checks on every recorded day "
+             "tiling (expressions whose rules each carry their own comment, plus the repo corpus): comments are a subset of the rules' "
+             "comments, empty outside 1900..9999 and when no rule contributes, and exactly the rule's comments for an open/unknown period "
+             "that a single rule contributes with no other rule's period touching it; the runner checks sortedness/uniqueness of every "
+             "recorded vector. The first-interval clause is checked by the interval-stream trace of C02.",
+        note="Trusted: as C01; string order is checked by the runner (TLC has no order on strings).",
+        design_ref="8/C17",
     ),
 }
 
